@@ -38,13 +38,19 @@ type result struct {
 	Detail  string `json:"detail,omitempty"`
 	Rows    int    `json:"rows"`
 	Lexed   []int  `json:"lexed"`
+	Cfg     [2]int `json:"cfg"` // chanSize, bulkSize
 }
 
 type tcase struct {
 	Kind, Text string
 	From       []string   // extras: graph names ...
 	Graphs     [][]string // ... and their triples (one text line each)
+	Cfg        int        // index into planCfgs: the (chanSize, bulkSize) planner.New gets
 }
+
+// planner.New(ctx, store, stm, chanSize, bulkSize, tracer): every value the constructor accepts is part of "every input";
+// the repo's tests only ever use chanSize 0 and bulkSize 10, the tools default to bulk size 1000.
+var planCfgs = [][2]int{{0, 10}, {0, 0}, {1, 1}, {3, 1000}}
 
 type runSpec struct {
 	c     tcase
@@ -162,7 +168,7 @@ func runOne(storeKind string, c *tcase) (outcome, detail string, rows int) {
 			ch <- out{"parse_error", "", 0}
 			return
 		}
-		pln, err := planner.New(ctx, st, stm, 0, 10, nil)
+		pln, err := planner.New(ctx, st, stm, planCfgs[c.Cfg%len(planCfgs)][0], planCfgs[c.Cfg%len(planCfgs)][1], nil)
 		if err != nil {
 			ch <- out{"plan_error", "", 0}
 			return
@@ -393,6 +399,60 @@ func templates() []string {
 			}
 		}
 	}
+	// every driver lookup shape (subject / predicate / object each given or free) with boundary limits, with and without the
+	// modifiers that stop the limit from being pushed down to the driver, over the wide graph (fan-out well above the limits
+	// and above every channel size in planCfgs)
+	for _, sub := range []string{`?s`, `/u<n1>`} {
+		for _, prd := range []string{`?p`, `"likes"@[]`, `"seen"@[?t]`} {
+			for _, obj := range []string{`?o`, `/t<a1>`, `/u<n8>`} {
+				proj := `?s`
+				if sub != `?s` {
+					proj = `?p`
+					if prd != `?p` {
+						proj = `?o`
+						if obj != `?o` {
+							proj = ``
+						}
+					}
+				}
+				if proj == `` || (proj == `?o` && obj != `?o`) || (proj == `?p` && prd != `?p`) {
+					continue
+				}
+				for _, lim := range []string{`"0"^^type:int64`, `"1"^^type:int64`, `"2"^^type:int64`, `"1000000"^^type:int64`} {
+					for _, mod := range []string{``, ` order by ` + proj, ` having ` + proj + ` = ` + proj} {
+						out = append(out, fmt.Sprintf(`select %s from ?w where {%s %s %s}%s limit %s;`, proj, sub, prd, obj, mod, lim))
+					}
+				}
+			}
+		}
+	}
+	// tokens whose TEXT contains the delimiters the hooks split on ("@[ , ] "^^type: < > quotes), in every position where a
+	// predicate, a predicate bound, a literal or a node can stand: the lexer finds token ends by searching for these
+	// delimiters, the hooks then take the token text apart again with their own rules
+	pieces := []string{`"`, `"@[`, `]`, `,`, `"^^type:`, `<`, `>`, `a`, `x,`, `@[`, `^^`, `2016-01-01T00:00:00Z`, `?t`, ` `, `\\`, `\"`}
+	var adv []string
+	for i := range pieces {
+		for j := range pieces {
+			adv = append(adv, `"a`+pieces[i]+pieces[j]+`"@[]`, `"a"@[`+pieces[i]+pieces[j]+`]`, `"a"@[`+pieces[i]+`,`+pieces[j]+`]`,
+				`"a`+pieces[i]+pieces[j]+`"^^type:text`, `/u<a`+pieces[i]+pieces[j]+`>`)
+		}
+	}
+	for i, a := range adv {
+		switch i % 6 {
+		case 0:
+			out = append(out, `select ?s from ?a where {?s `+a+` ?o};`)
+		case 1:
+			out = append(out, `select ?s from ?a where {?s ?p `+a+`};`)
+		case 2:
+			out = append(out, `select ?o from ?a where {`+a+` ?p ?o};`)
+		case 3:
+			out = append(out, `insert data into ?a {/u<k> `+a+` /u<z>};`)
+		case 4:
+			out = append(out, `construct {?s `+a+` ?o} into ?b from ?a where {?s ?p ?o . ?s ?q `+a+`};`)
+		case 5:
+			out = append(out, `select ?s from ?a where {?s ?p ?o} having ?o = `+a+`;`)
+		}
+	}
 	return out
 }
 
@@ -555,6 +615,13 @@ func main() {
 		if c.Kind != "prefix" && c.Kind != "race-repeat" {
 			runs = append(runs, runSpec{c, "populated"})
 		}
+		if c.Kind == "corpus" || c.Kind == "template" || c.Kind == "witness" {
+			for k := 1; k < len(planCfgs); k++ {
+				c2 := c
+				c2.Cfg = k
+				runs = append(runs, runSpec{c2, "populated"})
+			}
+		}
 	}
 	if *extra != "" {
 		f, err := os.Open(*extra)
@@ -571,7 +638,7 @@ func main() {
 				Graphs [][]string `json:"graph_texts"`
 			}
 			if json.Unmarshal(sc.Bytes(), &x) == nil && x.Query != "" {
-				runs = append(runs, runSpec{tcase{"generated-query", x.Query, x.From, x.Graphs}, "own"})
+				runs = append(runs, runSpec{tcase{"generated-query", x.Query, x.From, x.Graphs, len(runs) % len(planCfgs)}, "own"})
 			}
 		}
 		f.Close()
@@ -590,7 +657,7 @@ func main() {
 			fmt.Fprintf(w, "START %d\n", i)
 			w.Flush()
 			o, d, rows := runOne(sk, &c)
-			enc.Encode(result{i, c.Kind, sk, c.Text, o, d, rows, lexKindsSafe(c.Text)})
+			enc.Encode(result{i, c.Kind, sk, c.Text, o, d, rows, lexKindsSafe(c.Text), planCfgs[c.Cfg%len(planCfgs)]})
 			w.Flush()
 			if o == "hang" {
 				os.Exit(3) // a goroutine is stuck (possibly spinning): start the next case in a fresh process
@@ -654,7 +721,7 @@ func main() {
 					msg := errb.String()
 					site := firstFrames(msg)
 					first := strings.SplitN(msg, "\n", 2)[0]
-					b, _ := json.Marshal(result{started, c.Kind, sk, c.Text, "killed", first + " @ " + site, 0, nil})
+					b, _ := json.Marshal(result{started, c.Kind, sk, c.Text, "killed", first + " @ " + site, 0, nil, planCfgs[c.Cfg%len(planCfgs)]})
 					emit(string(b))
 					next = started + W
 				} else if done < 0 {
@@ -690,7 +757,7 @@ func main() {
 		if got == nil { // died in the confirmation run
 			c, sk := runs[r.Idx].c, runs[r.Idx].store
 			msg := errb.String()
-			got = &result{r.Idx, c.Kind, sk, c.Text, "killed", strings.SplitN(msg, "\n", 2)[0] + " @ " + firstFrames(msg), 0, nil}
+			got = &result{r.Idx, c.Kind, sk, c.Text, "killed", strings.SplitN(msg, "\n", 2)[0] + " @ " + firstFrames(msg), 0, nil, planCfgs[c.Cfg%len(planCfgs)]}
 		}
 		if got.Outcome == "hang" || got.Outcome == "leak" || got.Outcome == "killed" || got.Outcome == "panic" {
 			confirmed++
